@@ -111,14 +111,20 @@ def pipeline(coords, species, M, site_frac, labels, want_volume=True, li_cols=(0
         from gemdat.collective import Collective
 
         inv = [list(labels_index).index(k) for k in range(3)] if (labels_index := out.get('_site_order')) else [0, 1, 2]
-        extra = np.asarray(site_frac)[inv[0]] + np.array([0.5, 0.45, 0.55])  # defined relative to the site that is site 0 in the base labelling
-        s4 = concretise.make_sites(np.vstack([np.asarray(site_frac), extra[None]]), list(labels) + ['A'], M)
+        # the extra site is defined relative to the site that is site 0 in the base labelling, a quarter cell "behind" it,
+        # so that the two are neighbours through a cell face in some representations and inside the cell in others;
+        # all four sites are wrapped into [0, 1) as a user's site file would be
+        extra = np.asarray(site_frac)[inv[0]] + np.array([-0.25, 0.05, 0.1])
+        sf4 = np.mod(np.vstack([np.asarray(site_frac), extra[None]]), 1.0)
+        s4 = concretise.make_sites(sf4, list(labels) + ['A'], M)
+        d4 = geom.dist_matrix(sf4, sf4, M)
+        tie4 = bool(np.any(np.abs(d4[..., None] - np.array([1.0, 2.0, 3.0, 4.0, 5.0])) < 1e-9))  # a site distance on a cut-off: not compared
         df = pd.DataFrame(np.array([[0, inv[0], inv[1], 0, 1], [1, inv[2], 3, 1, 2]]), columns=['atom index', 'start site', 'destination site', 'start time', 'stop time'])
         cc = []
         for md in (1.0, 2.0, 3.0, 4.0, 5.0):
             c4 = Collective(jumps=types.SimpleNamespace(data=df), sites=s4, lattice=_Lattice(np.asarray(M)), max_steps=5, max_dist=md)
             cc.append(len(c4.collective))
-        out['collective4'] = tuple(cc)
+        out['collective4'] = None if tie4 else tuple(cc)
     except Exception as e:  # noqa: BLE001
         out['collective4'] = ('raise', type(e).__name__)
     m = traj.metrics()
@@ -248,7 +254,7 @@ def compare(base, got, spec, dims):
         v.append(('count-matrices-change', ''))
     if ne('D_jump') and not np.isclose(base.get('D_jump', np.nan), got.get('D_jump', np.nan), rtol=1e-7, atol=0):
         v.append(('jump-diffusivity-changes', f'{base.get("D_jump")} vs {got.get("D_jump")}'))
-    if base.get('collective4') != got.get('collective4'):
+    if base.get('collective4') is not None and got.get('collective4') is not None and base.get('collective4') != got.get('collective4'):
         v.append(('collective-pairs-between-disjoint-site-pairs-change', f'{base.get("collective4")} vs {got.get("collective4")}'))
     if base.get('collective') != got.get('collective'):
         v.append(('collective-jump-counts-change', f'{base.get("collective")} vs {got.get("collective")}'))
